@@ -125,8 +125,7 @@ class Stream:
         if stage != "disabled":
             rig.h.enable()
         if stage == "connected":
-            rig.c.on_connected({"source": rig.c})
-            rig.link = True
+            rig.connect()
         if stage in ("waitcra", "communicating", "waitdelay"):
             rig.select()
         if stage == "communicating":
